@@ -12,7 +12,11 @@ BOUND = ("networks with <= 6 variables (exhaustive 1-variable, sampled 2-variabl
          "invariants re-checked against the brute-force lattice after every call; then unrestricted bfs or dfs compared with a fresh full expansion; plus networks with "
          "diagrams of depth >= 2 (unions of bistable modules, nested switches, latch DAGs) under 'partial expansion, then a shallower level-limited bfs' and depth-first "
          "histories; a quarter of the seeded cases and the cases on networks with 4-6 stable motifs at the root run under max_motifs_per_node in 1..6 (a call that "
-         "hits the limit raises and must leave the node unexpanded; the final comparison then runs with the limit lifted)")
+         "hits the limit raises and must leave the node unexpanded; the final comparison then runs with the limit lifted); the percolated-input shape: networks with <= 6 "
+         "variables in which 1-3 variables become inputs once a bistable / source controller is fixed (8 update-function forms, 5 controllers, 6 side modules, seeded mixes; "
+         "families.percolated_input_nets and emergent_source_nets) under expand_block(optimize_source_nodes=False) with / without the motif-avoidance check and size limits 6..20, "
+         "optionally followed by a second call, then (half of the cases) the unrestricted expansion; a quarter of these cases use optimize_source_nodes=True and are checked "
+         "with the weaker invariants for source shortcuts")
 RULE = "non-trivial = the reference diagram has >= 3 nodes and at least one step left the diagram partially expanded (a stub existed after it)"
 CASE_TIMEOUT = 60.0
 
